@@ -235,6 +235,12 @@ where
     while let Some(res) = poll_fn(|cx| body.as_mut().poll_next(cx)).await {
         let mut chunk = res.map_err(|err| DispatchError::ResponseBody(err.into()))?;
 
+        // An empty chunk carries no data: there is nothing to reserve capacity for, and waiting
+        // for capacity after `reserve_capacity(0)` would never complete.
+        if chunk.is_empty() {
+            continue;
+        }
+
         'send: loop {
             let chunk_size = cmp::min(chunk.len(), CHUNK_SIZE);
 
